@@ -3,7 +3,9 @@ from core import Case
 from . import rtgen as R
 
 ID = "C16"
-THEOREMS = ['Portus.C16.loopStep_ok', 'Portus.C16.run_no_panic', 'Portus.C16.run_bytes_no_panic', 'Portus.C16.ignored_is_identity', 'Portus.C16.untyped_bytes_are_other', 'Portus.C08.next_no_panic', 'Portus.C04.from_buf_no_panic', 'Portus.Rt.step_ok']
+AUDIT_IMPORTS = ["PortusModel.Props.C19"]
+THEOREMS = ['Portus.C19.recv_never_panics', 'Portus.C16.loopStep_ok', 'Portus.C16.run_no_panic', 'Portus.C16.run_bytes_no_panic', 'Portus.C16.ignored_is_identity', 'Portus.C16.untyped_bytes_are_other', 'Portus.C08.next_no_panic', 'Portus.C04.from_buf_no_panic', 'Portus.Rt.step_ok']
+SPEC_IS_ORACLE = True  # the compared trace is what the property speaks about and is determined by the history
 KEEP = {"RX", "NF", "RP", "CL", "DR", "RES", "TXFAIL"}
 RELATION = 'callback trace and final result (OK | ERR | PANIC) of RunBuilder::run under adversarial datagrams and injected transport failures'
 RULE = 'valid traffic interleaved with adversarial datagrams: every type code incl. the CCP->datapath types 2/3/4 and >255, truncated and oversized payloads, typed messages too short for their fixed fields, bad counts, random bytes, empty datagrams; recv errors and send failures (1..3 consecutive) at random points, stop requests. non-trivial = at least one adversarial item and one callback after it; distinct by case line'
@@ -16,11 +18,15 @@ TECHNIQUE = 'Lean 4 totality theorem over the composed loop (induction on fuel w
 
 
 def project(c, r):
-    return R.project(r, KEEP)
+    return r if c.cmd == "XPT" else R.project(r, KEEP)
 
 
 def gen(ctx):
     rng = ctx.rng
+    # the bundled transports themselves: a datagram larger than the receive buffer must not crash the receiver (F13)
+    for kind in ("chan", "unix"):
+        for mode in ("b", "nb"):
+            yield Case("XPT", "over %s %s" % (kind, mode), tags=("oversize",))
     for _ in range(40000 if ctx.thorough else 2500):
         yield Case("RUN", R.gen_case(rng, n=rng.randrange(1, 61 if ctx.thorough else 31), adversarial=rng.choice([0.2, 0.4, 0.6]), faults=rng.choice([0.05, 0.1, 0.2]), stop=0.02, rich=rng.random() < 0.5), tags=("adversarial",))
     for typ in list(range(0, 8)) + [255, 256, 257, 258, 259, 260, 261, 0xFFFF]:
@@ -32,13 +38,17 @@ def gen(ctx):
 
 
 def classify(c, r):
+    if c.cmd == "XPT":
+        return ["oversize:" + r]
     parts = r.split(" | ")
     return ["events:%d" % min(len(parts) // 10 * 10, 80), "end:" + parts[-1].split(" ")[1]]
 
 
 def nontrivial(c, r):
-    return "RAW" in c.args and ("RP " in r or "NF " in r)
+    return c.cmd == "XPT" or "RAW" in c.args and ("RP " in r or "NF " in r)
 
 
 def oracle(c, impl_res):
+    if c.cmd == "XPT":
+        return ("ORC", "C19 over @@ %s" % impl_res)
     return ("ORC", "C16 %s" % impl_res)
